@@ -47,10 +47,25 @@ class TalCheck(CheckBase):
         base = run_real(template, tmpl, [], None)
         plans = gen_fault_plans(ch, tmpl, base["history"], case["nplans"])
         out = [([], None), ([], {})]
+        base_sites = set(base["history"])
         for p in plans:
             h = ch.weighted([(4, None), (4, {}),
                              (1, {"fail_with": "RuntimeError"})])
             out.append((p, h))
+            # second stage: sites that are only reached *because of* the
+            # faults of this plan (on-error fallback expressions, later
+            # pipe alternatives, default branches) get faults of their own
+            m = run_model(tmpl, p, h)
+            new = sorted(set(m["history"]) - base_sites -
+                         {f["site"] for f in p})
+            if new and ch.coin(0.7):
+                k = ch.pick(new)
+                cls = ch.weighted([(3, ch.pick(UNCAUGHT_NAMES)),
+                                   (2, ch.pick(CAUGHT_NAMES)),
+                                   (1, ch.pick(NONEXC_NAMES))])
+                out.append((p + [{"site": k, "n": ch.pick(["*", 0]),
+                                  "do": ["raise", cls]}],
+                            ch.pick([None, {}, {}])))
         return out
 
     # -- execution ---------------------------------------------------------------
